@@ -27,6 +27,8 @@ pub struct LRun {
     pub tfdt_version: u8,
     pub base_time: u64,
     pub samples: Vec<LSample>,
+    /// 0 = no sample flags, 1 = first_sample_flags, 2 = per-sample flags
+    pub flags_mode: u8,
 }
 
 #[derive(Clone, Debug)]
@@ -149,10 +151,10 @@ pub fn media_nodes(m: &LFragMovie) -> (Vec<Node>, Vec<(u32, Vec<FExpect>)>) {
                 version: r.cts_version.unwrap_or(0),
                 sample_count: r.samples.len() as u32,
                 data_offset: if r.data_offset { Some(0) } else { None },
-                first_sample_flags: None,
+                first_sample_flags: if r.flags_mode == 1 { Some(0x0200_0000) } else { None },
                 durations: if r.per_sample_durations { Some(r.samples.iter().map(|s| s.delta).collect()) } else { None },
                 sizes: Some(r.samples.iter().map(|s| s.size).collect()),
-                flags_: None,
+                flags_: if r.flags_mode == 2 { Some(r.samples.iter().enumerate().map(|(i, _)| if i == 0 { 0x0200_0000 } else { 0x0101_0000 }).collect()) } else { None },
                 cts: r.cts_version.map(|_| r.samples.iter().map(|s| s.cts).collect()),
             };
             let (ml, dl) = (moof_label.clone(), label.clone());
